@@ -568,22 +568,29 @@ func (x *runner) fnOps(n int) {
 	}
 }
 
-// referenceTree renders, for an archive of directories and regular files
-// only, what the independent extraction created, in the format of the Lean
-// reference `extract` ("none" when the archive is outside its class).
+// referenceTree renders, for an archive without hard links, what the
+// independent extraction created, in the format of the Lean reference
+// `extract` ("none" when the archive is outside its class: a member placed
+// through a link, a parent that is not a directory, any repetition other than
+// file over file and directory over an existing name).
 func referenceTree(ms []member, t *otree) (string, bool) {
 	for _, m := range ms {
-		if m.Kind != 'd' && m.Kind != 'r' {
+		if m.Kind == 'l' {
 			return "", false
 		}
-		if strings.ContainsRune(m.Name, utf8.RuneError) || strings.Contains(m.Name, "\\") {
-			return "", false
+		for _, s := range []string{m.Name, m.Link} {
+			if strings.ContainsRune(s, utf8.RuneError) || strings.Contains(s, "\\") {
+				return "", false
+			}
 		}
 	}
-	// In an archive of directories and regular files the only other repetition
-	// is a directory member over a regular file, which both extractions skip.
-	if len(t.flags.nonWF) > 0 {
+	if len(t.flags.nonWF) > 0 || t.flags.throughLink {
 		return "none", true
+	}
+	for _, o := range t.flags.otherRep {
+		if o != "dir-over-nondir" {
+			return "none", true
+		}
 	}
 	var want []oentry
 	t.listing(t.root, "", &want)
@@ -594,6 +601,14 @@ func referenceTree(ms []member, t *otree) (string, bool) {
 			items = append(items, hx.Hex([]byte(w.path))+":d")
 		case 'f':
 			items = append(items, fmt.Sprintf("%s:f:%d:%d", hx.Hex([]byte(w.path)), len(w.node.data), fnv(w.node.data)))
+		case 's':
+			tgt := escName(strings.Join(w.node.lexTarget, "/"))
+			if tgt == "" {
+				tgt = "."
+			}
+			items = append(items, hx.Hex([]byte(w.path))+":s:"+hx.Hex([]byte(tgt)))
+		case 'x':
+			items = append(items, hx.Hex([]byte(w.path))+":x")
 		default:
 			return "", false
 		}
